@@ -1,10 +1,9 @@
 """C14 - finite-group tables are groups; partition and tableau counts are exact.
 
 Spaces (DESIGN.md section 4, C14) - every one is a finite domain that is enumerated completely:
-  A  table    : every Cayley table numqi can construct with order <= 120
-                  quick   : S_2..S_5, A_2..A_5, D_3..D_12, C_2..C_12, (Z/n)^* n=3..24, Klein, quaternion
-                  thorough: S_2..S_5, A_2..A_5, D_3..D_60, C_2..C_120, (Z/n)^* for every n with phi(n)<=120 (n<=462),
-                            Klein, quaternion; plus the axioms alone for S_6 (720) and A_6 (360)
+  A  table    : every Cayley table numqi can construct with order <= 120 (both tiers - the whole domain of the property):
+                  S_2..S_5, A_2..A_5, D_3..D_60, C_2..C_120, (Z/n)^* for every n with phi(n) <= 120 (n <= 462), Klein,
+                  quaternion: 427 tables; thorough adds the axioms alone for A_6 (360) and S_6 (720)
                 for each table T (N x N):
                   all pairs   : entries in range, Latin square, two-sided identity, two-sided inverses
                   all triples : T[T[a,b],c] == T[a,T[b,c]]
@@ -16,14 +15,15 @@ Spaces (DESIGN.md section 4, C14) - every one is a finite domain that is enumera
                   <chi_i,chi_j> = delta_ij (irreducible, pairwise inequivalent), #blocks = #conjugacy classes,
                   sum dim^2 = N
      relabel  : the same pipeline on a seed-dependent relabelling pi T pi^-1 of the table (generic atom: identity not
-                at index 0, no lexicographic structure) - the only seed-dependent input of this check
-  B  pcount   : get_sym_group_num_irrep(N) for all N <= 60 (150 thorough) against Euler's pentagonal recurrence in
-                python integers; the return_full table against the restricted-partition recurrence
-  C  diagram  : get_sym_group_young_diagram(N), N <= 14 (30 thorough): exactly the set of partitions of N produced by an
+                at index 0, no lexicographic structure) - the only seed-dependent input of this check; 1 atom per
+                table of order 3..24 (quick), 2 atoms per table of order 3..120 (thorough)
+  B  pcount   : get_sym_group_num_irrep(N) for all N <= 60 (300 thorough) against Euler's pentagonal recurrence in
+                python integers; the return_full table (N <= 30 / 60) against the restricted-partition recurrence
+  C  diagram  : get_sym_group_young_diagram(N), N <= 16 (36 thorough): exactly the set of partitions of N produced by an
                 independent recursive generator (shape, dtype, padding, no duplicates, no omissions)
-  D  hook     : get_hook_length / get_young_diagram_mask / get_young_diagram_transpose for every partition of N <= 14
-                (24 thorough) against arm+leg hooks computed cell by cell and against the Young-lattice path count
-  E  tableaux : get_all_young_tableaux for every partition of N <= 8 (11 thorough): every tableau standard, pairwise
+  D  hook     : get_hook_length / get_young_diagram_mask / get_young_diagram_transpose for every partition of N <= 16
+                (28 thorough) against arm+leg hooks computed cell by cell and against the Young-lattice path count
+  E  tableaux : get_all_young_tableaux for every partition of N <= 9 (12 thorough): every tableau standard, pairwise
                 distinct, the *set* equal to the set produced by an independent corner-removal generator, count ==
                 get_hook_length == hook formula == lattice path count; N <= 7: == brute-force filtering of all N!
                 fillings.  finalize: sum_lambda f(lambda)^2 == N! for every N (RSK identity) on the observed counts.
@@ -476,6 +476,8 @@ def run_table(case, out, env, numqi):
     ok, T2 = _call(out, site, 'constructing the Cayley table of %s a second time' % name, construct, numqi, fam, n)
     if ok and not np.array_equal(T, T2):
         out.violation(site + '/not_reproducible', 'two constructions of %s differ' % name, family=fam, n=n)
+    if ok and T2 is T:
+        out.count('constructor_returns_shared_cached_array')  # observation only: a caller writing into it corrupts later calls
     T = np.array(T, dtype=np.int64)  # private copy: the S_n/A_n tables are shared lru_cache objects
     N = Nref
     if k_rel:
@@ -613,6 +615,14 @@ def run_case(case, out, env):
     g = numqi.group
     kind = case['kind']
     if kind == 'table':
+        if case['relabel']:
+            # a relabelled table is an extra (generic) input: it is only meaningful if the pipeline is sound on the
+            # table as constructed; otherwise the finding belongs to the un-relabelled case and is not repeated here
+            probe = core.Out()
+            run_table(dict(case, relabel=0), probe, env, numqi)
+            if probe.n_violations:
+                out.count('relabel_skipped_base_case_fails')
+                return
         run_table(case, out, env, numqi)
 
     elif kind == 'pcount':
